@@ -27,6 +27,11 @@ def isMulti : Exp → Bool
   | .call _ _ | .mcall _ _ _ | .vararg => true
   | _ => false
 
+/-- erase every parenthesis node (used to recognise inputs that depend on truncating parentheses) -/
+partial def eraseParens : Exp → Exp
+  | .paren e => eraseParens e
+  | e => e
+
 mutual
 partial def normExp (multi : Bool) : Exp → Exp
   | .paren e =>
